@@ -7,7 +7,7 @@ import z3
 
 from . import api, ops
 from . import ty as T
-from .core import PYOBJ, ContractMisfit, Outcome, State, Unsupported, Val, coerce, fresh, fresh_name, join_types, lift, seq_nth
+from .core import PYOBJ, ContractMisfit, Outcome, PyMerge, State, Unsupported, Val, coerce, fresh, fresh_name, join_types, lift, seq_nth
 from .exprs import BoundMethod, Closure, bool_val, z_and, z_implies, z_not, z_or
 from .ops import is_const, z3bool
 
@@ -285,6 +285,7 @@ class StmtMixin:
         self.bind_target(g.target, item, sub, gen)
         mark = len(sub.pc)
         self.qstack.append((vars_, guard))
+        self.qouter.append(st)
         self.qnames.append(_names_of(g.target))
         try:
             sub.pc.append(guard)
@@ -297,6 +298,7 @@ class StmtMixin:
             body = self.cond(gen.elt, sub)
         finally:
             self.qstack.pop()
+            self.qouter.pop()
             self.qnames.pop()
         if which == "all":
             return bool_val(z3.ForAll(vars_, z3bool(z_implies(z_and(guard, *conds), body))))
@@ -369,9 +371,12 @@ class StmtMixin:
                     # a list source: the bound variable ranges over the ELEMENTS of the list
                     from .core import seq_contains_elem
 
+                    from . import models
+
                     et = info.seqval.ty.elem
                     x = fresh(et, "cx")
                     guard = seq_contains_elem(lift(info.seqval), x)
+                    models.seq_member_facts(st, lift(info.seqval))  # so that xs[i] is known to be one of the elements
                     item = Val(et, x)
                     kelem = et
                 else:
@@ -387,6 +392,7 @@ class StmtMixin:
                 item = {"items": Val(PYOBJ, None, (kv, vv), True), "keys": kv, "values": vv}[mode]
         self.bind_target(g.target, item, sub, node)
         self.qstack.append(([x], guard))
+        self.qouter.append(st)
         self.qnames.append(_names_of(g.target))
         try:
             sub.pc.append(guard)
@@ -399,6 +405,7 @@ class StmtMixin:
                 ve = None
         finally:
             self.qstack.pop()
+            self.qouter.pop()
             self.qnames.pop()
         if not (not ke.is_py and z3.eq(lift(ke), x)):
             if kind == "set" and ke.ty is not PYOBJ:
@@ -454,6 +461,7 @@ class StmtMixin:
         guard = z3.And(i >= 0, i < info.n)
         self.bind_target(g.target, info.item(i), sub, node)
         self.qstack.append(([i], guard))
+        self.qouter.append(st)
         self.qnames.append(_names_of(g.target))
         try:
             sub.pc.append(guard)
@@ -470,6 +478,7 @@ class StmtMixin:
                 ve = None
         finally:
             self.qstack.pop()
+            self.qouter.pop()
             self.qnames.pop()
         from . import models
 
@@ -498,6 +507,7 @@ class StmtMixin:
         guard = z3.And(i >= 0, i < info.n)
         self.bind_target(g.target, info.item(i), sub, node)
         self.qstack.append(([i], guard))
+        self.qouter.append(st)
         self.qnames.append(_names_of(g.target))
         try:
             sub.pc.append(guard)
@@ -509,6 +519,7 @@ class StmtMixin:
             body = self.eval(node.elt, sub)
         finally:
             self.qstack.pop()
+            self.qouter.pop()
             self.qnames.pop()
         et = body.ty
         if et is PYOBJ and body.is_py and isinstance(body.py, tuple) and body.py:
@@ -571,6 +582,23 @@ class StmtMixin:
             self._hints_seen.add(ast.unparse(node).split("\n")[0])
         if isinstance(node, (ast.If, ast.For, ast.While, ast.Try, ast.With, ast.FunctionDef)):
             outs = m(node, st)
+        elif isinstance(node, (ast.Assign, ast.AnnAssign, ast.Return)) and isinstance(node.value, ast.IfExp):
+            # `x = f if c else g` over python-level values cannot be an SMT ite: fall back to the `if` statement
+            n_ob, names0, st0 = len(self.obligations), dict(self._names), st.copy()
+            try:
+                outs = self.simple(m, node, st)
+            except PyMerge:
+                del self.obligations[n_ob:]
+                self._names = names0
+                import copy as _copy
+
+                arms = []
+                for val in (node.value.body, node.value.orelse):
+                    arm = _copy.copy(node)
+                    arm.value = val
+                    arms.append(arm)
+                ifn = ast.copy_location(ast.If(test=node.value.test, body=[arms[0]], orelse=[arms[1]]), node)
+                outs = self.s_If(ifn, st0)
         else:
             outs = self.simple(m, node, st)
         gh = self.c.ghost.get(ast.unparse(node).split("\n")[0]) if self.c and self.c.ghost else None
@@ -700,9 +728,21 @@ class StmtMixin:
         for t in node.targets:
             if isinstance(t, ast.Subscript):
                 recv = self.eval(t.value, st)
+                if isinstance(t.slice, ast.Slice):
+                    raise Unsupported("del of a slice", node)
                 idx = self.eval(t.slice, st)
                 from . import models
 
+                r0 = self.deopt(recv, st, node) if isinstance(recv.ty, T.Opt) else recv
+                if isinstance(r0.ty, T.Ref) and not r0.is_py:
+                    cs = self.class_of(r0.ty)
+                    hook = getattr(cs, "delitem", None)
+                    if hook is None:
+                        raise Unsupported(f"del item on {r0.ty} (the class has no delitem= hook)", node)
+                    hook(self, st, r0, idx, node)
+                    continue
+                if isinstance(t.value, ast.Name):
+                    self.check_alias(t.value.id, st, node)
                 nv = models.del_item(self, st, recv, idx, node)
                 self.assign_target(t.value, nv, st, node, mutate=True)
             elif isinstance(t, ast.Name):
@@ -960,7 +1000,8 @@ class StmtMixin:
             else:
                 return None  # python-level field differs between the branches: keep the paths apart
         m.escaped = a.escaped | b.escaped
-        m.ghost = dict(a.ghost)
+        # fact caches (dict well-formedness ..): only what was assumed BEFORE the branch is available unconditionally
+        m.ghost = {k: v for k, v in a.ghost.items() if not (isinstance(v, tuple) and len(v) == 2 and isinstance(v[1], int) and v[1] >= base)}
         # keep the branch-local facts as implications
         for extra, cnd in ((a.pc[base + 1:], ca), (b.pc[base + 1:], cb)):
             pass
